@@ -46,7 +46,7 @@ def main(argv=None):
         soundness_guards(ctx)
         mod.run(ctx)
         roots, what = property_roots(ctx, prop)
-        hidden_state_rule(ctx, "R0.1", roots, what)
+        hidden_state_rule(ctx, "R0.1", roots, what, prop=prop)
         if a.tier == "thorough" and os.environ.get("VERIF_SELFTEST", "1") != "0" and ctx.repo.root == "/repo":
             ctx.informational["selftest"] = run_selftest(prop)
         from .report import finish
